@@ -349,6 +349,7 @@ fn check(scn: &Scenario, rep: &mut Report, orders: &mut std::collections::HashSe
     let mut stats = BTreeMap::new();
     let mut vs = fairness(scn, &out, &mut stats);
     vs.extend(stream_latency("C18", scn, &out, &mut stats));
+    vs.extend(reply_latency("C18", scn, &out, &mut stats));
     // (c) nothing ready is left unserved at a quiescent point: the reference model's progress check
     let mut st2 = BTreeMap::new();
     for (sig, d) in check_reference("C18", scn, &out, &mut st2) {
